@@ -1060,31 +1060,62 @@ theorem findLinkImage_dinv (s : Str) (offset : Nat) (ds : List Delim) (ms : List
 
 /-! ### the character loop of `find_core_tokens` -/
 
-/-- what the character loop needs of an invariant `I hi ds ms` of the delimiters and matches, all
-    delimiters ending at or before `hi` -/
-structure LoopInv (s : Str) (fn : Footnotes.Table) (I : Nat → List Delim → List CoreM → Prop) : Prop where
+/-- What the character loop needs of an invariant.  `I hi ds ms`: the delimiters (all ending at or
+    before `hi`) and the matches; `R a b ch`: `[a, b)` is a run of the delimiter character `ch`;
+    `J i`: the character before `i` is harmless as first character of a `![` delimiter;
+    `E`: an escaping backslash has been seen. -/
+structure LoopInv (s : Str) (fn : Footnotes.Table) (I : Nat → List Delim → List CoreM → Prop)
+    (R : Nat → Nat → Char → Prop) (J : Nat → Prop) (E : Prop) : Prop where
   mono : ∀ {hi hi' : Nat} {ds : List Delim} {ms : List CoreM}, hi ≤ hi' → I hi ds ms → I hi' ds ms
-  push : ∀ {hi hi' : Nat} {ds : List Delim} {ms : List CoreM} (a b : Nat), I hi ds ms → hi ≤ a → a < b → b ≤ hi' →
-    b ≤ s.length → I hi' (ds ++ [mkDelim a b s]) ms
-  link : ∀ {hi : Nat} {ds : List Delim} {ms : List CoreM} (offset : Nat), I hi ds ms → hi ≤ s.length → offset < s.length →
-    ∃ i' ds' ms', findLinkImage s offset ds ms fn = .ok (i', ds', ms') ∧ offset ≤ i' ∧ i' < s.length ∧ I hi ds' ms'
+  push_run : ∀ {hi hi' : Nat} {ds : List Delim} {ms : List CoreM} (a b : Nat) (ch : Char), I hi ds ms → R a b ch →
+    hi ≤ a → a < b → b ≤ hi' → b ≤ s.length → I hi' (ds ++ [mkDelim a b s]) ms
+  push_esc : ∀ {hi hi' : Nat} {ds : List Delim} {ms : List CoreM} (a b : Nat), I hi ds ms → E →
+    hi ≤ a → a < b → b ≤ hi' → b ≤ s.length → I hi' (ds ++ [mkDelim a b s]) ms
+  push_br : ∀ {hi hi' : Nat} {ds : List Delim} {ms : List CoreM} (i : Nat), I hi ds ms → s[i]? = some '[' →
+    hi ≤ i → i + 1 ≤ hi' → i + 1 ≤ s.length → I hi' (ds ++ [mkDelim i (i + 1) s]) ms
+  push_img : ∀ {hi hi' : Nat} {ds : List Delim} {ms : List CoreM} (i : Nat), I hi ds ms → J i → s[i]? = some '[' →
+    hi ≤ i - 1 → i + 1 ≤ hi' → i + 1 ≤ s.length → I hi' (ds ++ [mkDelim (i - 1) (i + 1) s]) ms
+  link : ∀ {hi : Nat} {ds : List Delim} {ms : List CoreM} (offset : Nat), I hi ds ms → hi ≤ s.length →
+    s[offset]? = some ']' →
+    ∃ i' ds' ms', findLinkImage s offset ds ms fn = .ok (i', ds', ms') ∧ offset ≤ i' ∧ i' < s.length ∧
+      I hi ds' ms' ∧ J (i' + 1)
+  R_new : ∀ (i : Nat) (c : Char), s[i]? = some c → (c = '*' ∨ c = '_') → R i (i + 1) c
+  R_ext : ∀ (a i : Nat) (ch : Char), R a i ch → s[i]? = some ch → R a (i + 1) ch
+  J_bang : ∀ i : Nat, s[i]? = some '!' → J (i + 1)
+  J_bs : ∀ i : Nat, s[i]? = some '\\' → J (i + 1)
+  J_esc : E → ∀ i : Nat, J i
+  J_code : ∀ (p : Nat) (cm : CodeM), codeSearch s p = some cm → J cm.stop
+  E_bs : ∀ i : Nat, s[i]? = some '\\' → E
 
-theorem loopInv_chain (s : Str) (fn : Footnotes.Table) : LoopInv s fn (fun hi ds _ => Chain 0 hi ds) :=
-  ⟨fun hh h => h.mono (Nat.le_refl _) hh, fun a b h h1 hab h2 hb => h.push s a b h1 hab h2 hb,
-   fun {hi ds ms} offset h hhi ho => findLinkImage_ok s offset ds ms fn 0 hi h hhi ho⟩
-
-theorem loopInv_dinv (s : Str) (fn : Footnotes.Table) : LoopInv s fn (DInv s 0) :=
-  ⟨fun hh h => h.mono hh, fun a b h h1 hab h2 hb => h.push a b h1 hab h2 hb,
-   fun {hi ds ms} offset h hhi ho => findLinkImage_dinv s offset ds ms fn 0 hi h hhi ho⟩
-
+theorem loopInv_dinv (s : Str) (fn : Footnotes.Table) :
+    LoopInv s fn (DInv s 0) (fun _ _ _ => True) (fun _ => True) True where
+  mono := fun hh h => h.mono hh
+  push_run := fun a b _ h _ h1 hab h2 hb => h.push a b h1 hab h2 hb
+  push_esc := fun a b h _ h1 hab h2 hb => h.push a b h1 hab h2 hb
+  push_br := fun i h _ h1 h2 hb => h.push i (i + 1) h1 (by omega) h2 hb
+  push_img := fun i h _ _ h1 h2 hb => h.push (i - 1) (i + 1) h1 (by omega) h2 hb
+  link := fun {hi ds ms} offset h hhi ho => by
+    obtain ⟨i', ds', ms', h1, h2, h3, h4⟩ := findLinkImage_dinv s offset ds ms fn 0 hi h hhi
+      (List.getElem?_eq_some_iff.1 ho).1
+    exact ⟨i', ds', ms', h1, h2, h3, h4, trivial⟩
+  R_new := fun _ _ _ _ => trivial
+  R_ext := fun _ _ _ _ _ => trivial
+  J_bang := fun _ _ => trivial
+  J_bs := fun _ _ => trivial
+  J_esc := fun _ _ => trivial
+  J_code := fun _ _ _ => trivial
+  E_bs := fun _ _ => trivial
 
 /-- invariant of the `while i < len(string)` loop at position `i` -/
-structure FInv (s : Str) (I : Nat → List Delim → List CoreM → Prop) (i : Nat) (st : FState) : Prop where
+structure FInv (s : Str) (I : Nat → List Delim → List CoreM → Prop) (R : Nat → Nat → Char → Prop) (J : Nat → Prop)
+    (E : Prop) (i : Nat) (st : FState) : Prop where
   ile : i ≤ s.length
   run : ∀ ch, st.inRun = some ch → (ch = '*' ∨ ch = '_') ∧ st.start + (if st.escaped then 1 else 0) < i ∧
-    I st.start st.ds st.ms ∧ st.inImage = false
+    I st.start st.ds st.ms ∧ st.inImage = false ∧ R st.start (i - (if st.escaped then 1 else 0)) ch
   norun : st.inRun = none → I (if st.inImage then i - 1 else i) st.ds st.ms
-  code : ∀ cm, st.code = some cm → cm.start < cm.stop ∧ cm.stop ≤ s.length
+  code : ∀ cm, st.code = some cm → cm.start < cm.stop ∧ cm.stop ≤ s.length ∧ J cm.stop
+  img : st.inImage = true → J i
+  esc : st.escaped = true → E
 
 /-- the delimiter run in progress is closed when the character differs or is escaped -/
 def st1Of (s : Str) (i : Nat) (c : Char) (st : FState) : FState :=
@@ -1112,11 +1143,14 @@ def tailExpr {α} (K : Nat → FState → Res α) (s : Str) (fn : Footnotes.Tabl
   else K (i + 1) { st2 with escaped := false }
 
 /-- state after the run bookkeeping for character `c` at position `i` -/
-structure Mid (s : Str) (I : Nat → List Delim → List CoreM → Prop) (i : Nat) (c : Char) (st : FState) : Prop where
+structure Mid (s : Str) (I : Nat → List Delim → List CoreM → Prop) (R : Nat → Nat → Char → Prop) (J : Nat → Prop)
+    (E : Prop) (i : Nat) (c : Char) (st : FState) : Prop where
   run : ∀ ch, st.inRun = some ch → (ch = '*' ∨ ch = '_') ∧ c = ch ∧ st.escaped = false ∧ st.start ≤ i ∧
-    I st.start st.ds st.ms
+    I st.start st.ds st.ms ∧ R st.start (i + 1) ch
   norun : st.inRun = none → I (if st.inImage then i - 1 else i) st.ds st.ms
-  code : ∀ cm, st.code = some cm → cm.start < cm.stop ∧ cm.stop ≤ s.length
+  code : ∀ cm, st.code = some cm → cm.start < cm.stop ∧ cm.stop ≤ s.length ∧ J cm.stop
+  img : st.inImage = true → J i
+  esc : st.escaped = true → E
 
 /-- the state after the pending delimiter run was closed with delimiter `d` -/
 def closeRunSt (st : FState) (d : Delim) : FState := { pushDelim st d with inRun := none }
@@ -1139,19 +1173,21 @@ theorem st2Of_same (i : Nat) (c : Char) (X : FState)
   · rw [h3] at h; cases h
 
 section loop
-variable {s : Str} {fn : Footnotes.Table} {I : Nat → List Delim → List CoreM → Prop} (L : LoopInv s fn I)
+variable {s : Str} {fn : Footnotes.Table} {I : Nat → List Delim → List CoreM → Prop}
+  {R : Nat → Nat → Char → Prop} {J : Nat → Prop} {E : Prop} (L : LoopInv s fn I R J E)
 include L
 
-theorem mid_norun (i : Nat) (c : Char) (X : FState) (hX : X.inRun = none)
+theorem mid_norun (i : Nat) (c : Char) (X : FState) (hc : s[i]? = some c) (hX : X.inRun = none)
     (hC : I (if X.inImage then i - 1 else i) X.ds X.ms)
-    (hcode : ∀ cm, X.code = some cm → cm.start < cm.stop ∧ cm.stop ≤ s.length) :
-    Mid s I i c (st2Of i c X) := by
+    (hcode : ∀ cm, X.code = some cm → cm.start < cm.stop ∧ cm.stop ≤ s.length ∧ J cm.stop)
+    (himg : X.inImage = true → J i) (hesc : X.escaped = true → E) :
+    Mid s I R J E i c (st2Of i c X) := by
   by_cases hn : (c = '*' ∨ c = '_') ∧ X.escaped = false
   · rw [st2Of_new i c X hX hn.1 hn.2]
-    refine ⟨fun ch hch => ?_, fun h => (by simp at h), hcode⟩
+    refine ⟨fun ch hch => ?_, fun h => (by simp at h), hcode, himg, hesc⟩
     simp only [Option.some.injEq] at hch
     subst hch
-    refine ⟨hn.1, rfl, hn.2, Nat.le_refl _, ?_⟩
+    refine ⟨hn.1, rfl, hn.2, Nat.le_refl _, ?_, L.R_new i c hc hn.1⟩
     dsimp only
     exact L.mono (by split <;> omega) hC
   · rw [st2Of_same i c X (by
@@ -1160,21 +1196,23 @@ theorem mid_norun (i : Nat) (c : Char) (X : FState) (hX : X.inRun = none)
         | true => rfl
         | false => exact absurd ⟨h1, he⟩ hn
       · right; left; exact h1)]
-    exact ⟨fun ch hch => (by rw [hX] at hch; cases hch), fun _ => hC, hcode⟩
+    exact ⟨fun ch hch => (by rw [hX] at hch; cases hch), fun _ => hC, hcode, himg, hesc⟩
 
-theorem mid_of_inv (i : Nat) (c : Char) (st : FState) (h : FInv s I i st) (hi : i < s.length) :
-    Mid s I i c (st2Of i c (st1Of s i c st)) := by
+theorem mid_of_inv (i : Nat) (c : Char) (st : FState) (h : FInv s I R J E i st) (hc : s[i]? = some c) :
+    Mid s I R J E i c (st2Of i c (st1Of s i c st)) := by
+  have hi : i < s.length := (List.getElem?_eq_some_iff.1 hc).1
   cases hr : st.inRun with
   | none =>
     have h1 : st1Of s i c st = st := by simp [st1Of, hr]
     rw [h1]
-    exact mid_norun L i c st hr (h.norun hr) h.code
+    exact mid_norun L i c st hc hr (h.norun hr) h.code h.img h.esc
   | some ch =>
-    obtain ⟨hch, hlt, hC, him⟩ := h.run ch hr
+    obtain ⟨hch, hlt, hC, him, hR⟩ := h.run ch hr
     by_cases hcond : c ≠ ch ∨ st.escaped = true
-    · have hb : ∃ b, (if !st.escaped then i else i - 1) = b ∧ st.start < b ∧ b ≤ i := by
+    · have hb : ∃ b, (if !st.escaped then i else i - 1) = b ∧ st.start < b ∧ b ≤ i ∧
+          b = i - (if st.escaped then 1 else 0) := by
         cases he : st.escaped <;> simp [he] at hlt ⊢ <;> omega
-      obtain ⟨b, hb, hb1, hb2⟩ := hb
+      obtain ⟨b, hb, hb1, hb2, hb3⟩ := hb
       have h1 : st1Of s i c st = closeRunSt st (mkDelim st.start b s) := by
         unfold st1Of
         rw [if_pos, hb]
@@ -1183,10 +1221,14 @@ theorem mid_of_inv (i : Nat) (c : Char) (st : FState) (h : FInv s I i st) (hi : 
           · simp [hr, hc]
           · simp [hr, hc]
       rw [h1]
-      refine mid_norun L i c _ rfl ?_ h.code
-      show I (if st.inImage then i - 1 else i) (st.ds ++ [mkDelim st.start b s]) st.ms
-      simp only [him]
-      exact L.push _ _ hC (Nat.le_refl _) hb1 hb2 (by omega)
+      refine mid_norun L i c _ hc rfl ?_ h.code ?_ h.esc
+      · show I (if st.inImage then i - 1 else i) (st.ds ++ [mkDelim st.start b s]) st.ms
+        simp only [him]
+        rw [← hb3] at hR
+        exact L.push_run _ _ ch hC hR (Nat.le_refl _) hb1 hb2 (by omega)
+      · intro h'
+        have : st.inImage = true := h'
+        rw [him] at this; cases this
     · have hc1 : c = ch := Classical.not_not.1 (fun h => hcond (Or.inl h))
       have he : st.escaped = false := by
         cases he : st.escaped with
@@ -1198,39 +1240,46 @@ theorem mid_of_inv (i : Nat) (c : Char) (st : FState) (h : FInv s I i st) (hi : 
         simp [hr, hc1, he]
       have h2 : st2Of i c st = st := st2Of_same i c st (Or.inl (by rw [hr]; simp))
       rw [h1, h2]
-      refine ⟨fun ch' hch' => ?_, fun hn => (by rw [hr] at hn; cases hn), h.code⟩
+      refine ⟨fun ch' hch' => ?_, fun hn => (by rw [hr] at hn; cases hn), h.code, h.img, h.esc⟩
       rw [hr] at hch'; cases hch'
-      rw [he] at hlt
-      exact ⟨hch, hc1, he, by simp at hlt; omega, hC⟩
+      rw [he] at hlt hR
+      simp only [Bool.false_eq_true, if_false, Nat.sub_zero, Nat.add_zero] at hlt hR
+      exact ⟨hch, hc1, he, by omega, hC, L.R_ext _ _ _ hR (by rw [← hc1]; exact hc)⟩
 
 omit L in
 theorem finv_norun (i : Nat) (X : FState) (hi : i ≤ s.length) (hX : X.inRun = none)
     (hC : I (if X.inImage then i - 1 else i) X.ds X.ms)
-    (hcode : ∀ cm, X.code = some cm → cm.start < cm.stop ∧ cm.stop ≤ s.length) : FInv s I i X :=
-  ⟨hi, fun ch h => (by rw [hX] at h; cases h), fun _ => hC, hcode⟩
+    (hcode : ∀ cm, X.code = some cm → cm.start < cm.stop ∧ cm.stop ≤ s.length ∧ J cm.stop)
+    (himg : X.inImage = true → J i) (hesc : X.escaped = true → E) : FInv s I R J E i X :=
+  ⟨hi, fun ch h => (by rw [hX] at h; cases h), fun _ => hC, hcode, himg, hesc⟩
 
 theorem tail_spec {α} (K : Nat → FState → Res α) (i : Nat) (c : Char) (st2 : FState)
-    (h : Mid s I i c st2) (hi : i < s.length) :
-    ∃ i' st3, tailExpr K s fn i c st2 = K (i' + 1) st3 ∧ i ≤ i' ∧ i' < s.length ∧ FInv s I (i' + 1) st3 := by
+    (h : Mid s I R J E i c st2) (hc : s[i]? = some c) :
+    ∃ i' st3, tailExpr K s fn i c st2 = K (i' + 1) st3 ∧ i ≤ i' ∧ i' < s.length ∧ FInv s I R J E (i' + 1) st3 := by
+  have hi : i < s.length := (List.getElem?_eq_some_iff.1 hc).1
+  have absurd_bool : ∀ {p : Prop}, false = true → p := fun h => by cases h
   cases hr : st2.inRun with
   | some ch =>
-    obtain ⟨hch, hc, he, hs, hC⟩ := h.run ch hr
-    have h1 : c ≠ '[' := by rcases hch with h | h <;> rw [hc, h] <;> decide
-    have h2 : c ≠ '!' := by rcases hch with h | h <;> rw [hc, h] <;> decide
-    have h3 : c ≠ ']' := by rcases hch with h | h <;> rw [hc, h] <;> decide
+    obtain ⟨hch, hcc, he, hs, hC, hR⟩ := h.run ch hr
+    have h1 : c ≠ '[' := by rcases hch with h | h <;> rw [hcc, h] <;> decide
+    have h2 : c ≠ '!' := by rcases hch with h | h <;> rw [hcc, h] <;> decide
+    have h3 : c ≠ ']' := by rcases hch with h | h <;> rw [hcc, h] <;> decide
     unfold tailExpr
     simp only [he, Bool.not_false, if_true, h1, h2, h3, if_false]
     cases him : st2.inImage with
     | true =>
-      refine ⟨i, _, rfl, Nat.le_refl _, hi, by omega, fun ch' hch' => ?_, fun hn => ?_, h.code⟩
+      refine ⟨i, _, rfl, Nat.le_refl _, hi, by omega, fun ch' hch' => ?_, fun hn => ?_, h.code, absurd_bool,
+        fun h' => absurd_bool (he ▸ h')⟩
       · dsimp only at hch' ⊢
         rw [hr] at hch'; cases hch'
-        exact ⟨hch, by simp; omega, hC, rfl⟩
+        exact ⟨hch, by simp; omega, hC, rfl, by simpa using hR⟩
       · dsimp only at hn; rw [hr] at hn; cases hn
     | false =>
-      refine ⟨i, _, rfl, Nat.le_refl _, hi, by omega, fun ch' hch' => ?_, fun hn => ?_, h.code⟩
+      refine ⟨i, _, rfl, Nat.le_refl _, hi, by omega, fun ch' hch' => ?_, fun hn => ?_, h.code,
+        fun h' => absurd_bool (him ▸ h'), fun h' => absurd_bool (he ▸ h')⟩
       · rw [hr] at hch'; cases hch'
-        exact ⟨hch, by rw [he]; simp; omega, hC, him⟩
+        rw [he]
+        exact ⟨hch, by simp; omega, hC, him, by simpa using hR⟩
       · rw [hr] at hn; cases hn
   | none =>
     have hC := h.norun hr
@@ -1239,47 +1288,59 @@ theorem tail_spec {α} (K : Nat → FState → Res α) (i : Nat) (c : Char) (st2
     | true =>
       simp only [Bool.not_true, Bool.false_eq_true, if_false]
       exact ⟨i, _, rfl, Nat.le_refl _, hi, finv_norun _ _ (by omega) hr
-        (L.mono (by dsimp only; split <;> omega) hC) h.code⟩
+        (L.mono (by dsimp only; split <;> omega) hC) h.code (fun _ => L.J_esc (h.esc he) _) absurd_bool⟩
     | false =>
+      have hesc' : false = true → E := absurd_bool
       simp only [Bool.not_false, if_true]
       by_cases h1 : c = '['
       · simp only [h1, if_true]
+        rw [h1] at hc
         cases him : st2.inImage with
         | false =>
           simp only [Bool.not_false, if_true]
           rw [him] at hC
-          refine ⟨i, _, rfl, Nat.le_refl _, hi, finv_norun _ _ (by omega) hr ?_ h.code⟩
+          refine ⟨i, _, rfl, Nat.le_refl _, hi, finv_norun _ _ (by omega) hr ?_ h.code
+            (fun h' => absurd_bool (him ▸ h')) (fun h' => absurd_bool (he ▸ h'))⟩
           show I (if st2.inImage then i + 1 - 1 else i + 1) (st2.ds ++ [mkDelim i (i + 1) s]) st2.ms
           rw [him]
-          exact L.push _ _ hC (Nat.le_refl _) (by omega) (Nat.le_refl _) (by omega)
+          exact L.push_br i hC hc (Nat.le_refl _) (Nat.le_refl _) (by omega)
         | true =>
           simp only [Bool.not_true, Bool.false_eq_true, if_false]
           rw [him] at hC
-          refine ⟨i, _, rfl, Nat.le_refl _, hi, finv_norun _ _ (by omega) hr ?_ h.code⟩
+          refine ⟨i, _, rfl, Nat.le_refl _, hi, finv_norun _ _ (by omega) hr ?_ h.code
+            absurd_bool (fun h' => absurd_bool (he ▸ h'))⟩
           show I (i + 1) (st2.ds ++ [mkDelim (i - 1) (i + 1) s]) st2.ms
-          exact L.push _ _ hC (Nat.le_refl _) (by omega) (Nat.le_refl _) (by omega)
+          exact L.push_img i hC (h.img him) hc (Nat.le_refl _) (Nat.le_refl _) (by omega)
       · simp only [h1, if_false]
         by_cases h2 : c = '!'
         · simp only [h2, if_true]
-          refine ⟨i, _, rfl, Nat.le_refl _, hi, finv_norun _ _ (by omega) hr ?_ h.code⟩
+          rw [h2] at hc
+          refine ⟨i, _, rfl, Nat.le_refl _, hi, finv_norun _ _ (by omega) hr ?_ h.code
+            (fun _ => L.J_bang i hc) (fun h' => absurd_bool (he ▸ h'))⟩
           exact L.mono (by dsimp only; split <;> simp <;> omega) hC
         · simp only [h2, if_false]
           by_cases h3 : c = ']'
           · simp only [h3, if_true]
-            obtain ⟨i', ds', ms', hf, hle, hlt, hC'⟩ := L.link i hC (by split <;> omega) hi
+            rw [h3] at hc
+            obtain ⟨i', ds', ms', hf, hle, hlt, hC', hJ⟩ := L.link i hC (by split <;> omega) hc
             rw [hf]
-            refine ⟨i', _, rfl, hle, hlt, finv_norun _ _ (by omega) hr ?_ (fun cm hcm => codeSearch_spec s i' cm hcm)⟩
-            exact L.mono (by dsimp only; split <;> omega) hC'
+            refine ⟨i', _, rfl, hle, hlt, finv_norun _ _ (by omega) hr ?_
+              (fun cm hcm => ?_) (fun _ => hJ) (fun h' => absurd_bool (he ▸ h'))⟩
+            · exact L.mono (by dsimp only; split <;> omega) hC'
+            · have := codeSearch_spec s i' cm hcm
+              exact ⟨this.1, this.2, L.J_code i' cm hcm⟩
           · simp only [h3, if_false]
             cases him : st2.inImage with
             | true =>
               simp only [if_true]
               rw [him] at hC
-              refine ⟨i, _, rfl, Nat.le_refl _, hi, finv_norun _ _ (by omega) hr ?_ h.code⟩
+              refine ⟨i, _, rfl, Nat.le_refl _, hi, finv_norun _ _ (by omega) hr ?_ h.code
+                absurd_bool (fun h' => absurd_bool (he ▸ h'))⟩
               exact L.mono (by simp; omega) hC
             | false =>
               simp only [Bool.false_eq_true, if_false]
-              refine ⟨i, _, rfl, Nat.le_refl _, hi, finv_norun _ _ (by omega) hr ?_ h.code⟩
+              refine ⟨i, _, rfl, Nat.le_refl _, hi, finv_norun _ _ (by omega) hr ?_ h.code
+                (fun h' => absurd_bool (him ▸ h')) (fun h' => absurd_bool (he ▸ h'))⟩
               rw [him] at hC ⊢
               exact L.mono (by simp) hC
 
@@ -1310,47 +1371,59 @@ theorem coreLoop_succ (s : Str) (fn : Footnotes.Table) (fuel i : Nat) (st : FSta
   rw [coreLoop]; rfl
 
 section loop2
-variable {s : Str} {fn : Footnotes.Table} {I : Nat → List Delim → List CoreM → Prop} (L : LoopInv s fn I)
+variable {s : Str} {fn : Footnotes.Table} {I : Nat → List Delim → List CoreM → Prop}
+  {R : Nat → Nat → Char → Prop} {J : Nat → Prop} {E : Prop} (L : LoopInv s fn I R J E)
 include L
 
 theorem code_spec {α} (K : Nat → FState → Res α) (i : Nat) (st : FState) (cm : CodeM)
-    (h : FInv s I i st) (hcm : st.code = some cm) (hi : i = cm.start) :
-    ∃ st3, codeExpr K s i st cm = K cm.stop st3 ∧ i < cm.stop ∧ FInv s I cm.stop st3 := by
-  obtain ⟨hcm1, hcm2⟩ := h.code cm hcm
+    (h : FInv s I R J E i st) (hcm : st.code = some cm) (hi : i = cm.start) :
+    ∃ st3, codeExpr K s i st cm = K cm.stop st3 ∧ i < cm.stop ∧ FInv s I R J E cm.stop st3 := by
+  obtain ⟨hcm1, hcm2, hcm3⟩ := h.code cm hcm
+  have hcode : ∀ cm', codeSearch s cm.stop = some cm' → cm'.start < cm'.stop ∧ cm'.stop ≤ s.length ∧ J cm'.stop :=
+    fun cm' h' => ⟨(codeSearch_spec s cm.stop cm' h').1, (codeSearch_spec s cm.stop cm' h').2, L.J_code _ _ h'⟩
   unfold codeExpr
   cases hr : st.inRun with
   | none =>
     simp only [Option.isSome_none, Bool.false_eq_true, if_false]
-    refine ⟨_, rfl, by omega, finv_norun _ _ hcm2 hr ?_ (fun cm' h' => codeSearch_spec s cm.stop cm' h')⟩
+    refine ⟨_, rfl, by omega, finv_norun _ _ hcm2 hr ?_ hcode (fun _ => hcm3) h.esc⟩
     exact L.mono (by dsimp only; split <;> omega) (h.norun hr)
   | some ch =>
-    obtain ⟨_, hlt, hC, him⟩ := h.run ch hr
+    obtain ⟨_, hlt, hC, him, hR⟩ := h.run ch hr
     simp only [Option.isSome_some, if_true]
-    refine ⟨_, rfl, by omega, finv_norun _ _ hcm2 rfl ?_ (fun cm' h' => codeSearch_spec s cm.stop cm' h')⟩
-    show I (if st.inImage then cm.stop - 1 else cm.stop) (st.ds ++ [_]) st.ms
-    rw [him]
-    refine L.push _ _ hC (Nat.le_refl _) ?_ ?_ ?_ <;>
-      cases he : st.escaped <;> simp [he] at hlt ⊢ <;> omega
+    refine ⟨_, rfl, by omega, finv_norun _ _ hcm2 rfl ?_ hcode ?_ (fun h' => by cases h')⟩
+    · show I (if st.inImage then cm.stop - 1 else cm.stop) (st.ds ++ [_]) st.ms
+      rw [him]
+      have hb : (if !st.escaped then i else i - 1) = i - (if st.escaped then 1 else 0) := by
+        cases st.escaped <;> simp
+      rw [hb]
+      refine L.push_run _ _ ch hC hR (Nat.le_refl _) ?_ ?_ ?_ <;>
+        cases he : st.escaped <;> simp [he] at hlt ⊢ <;> omega
+    · intro h'
+      have : st.inImage = true := h'
+      rw [him] at this; cases this
 
 theorem rest_spec {α} (K : Nat → FState → Res α) (i : Nat) (c : Char) (st : FState)
-    (h : FInv s I i st) (hi : i < s.length) :
-    ∃ i' st3, restExpr K s fn i c st = K (i' + 1) st3 ∧ i ≤ i' ∧ i' < s.length ∧ FInv s I (i' + 1) st3 := by
+    (h : FInv s I R J E i st) (hc : s[i]? = some c) :
+    ∃ i' st3, restExpr K s fn i c st = K (i' + 1) st3 ∧ i ≤ i' ∧ i' < s.length ∧ FInv s I R J E (i' + 1) st3 := by
+  have hi : i < s.length := (List.getElem?_eq_some_iff.1 hc).1
   unfold restExpr
   split
   · rename_i hbs
     simp only [Bool.and_eq_true, decide_eq_true_eq, Bool.not_eq_true'] at hbs
-    refine ⟨i, _, rfl, Nat.le_refl _, hi, by omega, fun ch hch => ?_, fun hn => ?_, h.code⟩
-    · obtain ⟨h1, h2, h3, h4⟩ := h.run ch hch
-      rw [hbs.2] at h2
-      exact ⟨h1, by simp at h2 ⊢; omega, h3, h4⟩
+    rw [hbs.1] at hc
+    refine ⟨i, _, rfl, Nat.le_refl _, hi, by omega, fun ch hch => ?_, fun hn => ?_, h.code,
+      fun _ => L.J_bs i hc, fun _ => L.E_bs i hc⟩
+    · obtain ⟨h1, h2, h3, h4, h5⟩ := h.run ch hch
+      rw [hbs.2] at h2 h5
+      exact ⟨h1, by simp at h2 ⊢; omega, h3, h4, by simpa using h5⟩
     · exact L.mono (by dsimp only; split <;> omega) (h.norun hn)
-  · exact tail_spec L K i c _ (mid_of_inv L i c st h hi) hi
+  · exact tail_spec L K i c _ (mid_of_inv L i c st h hc) hc
 
 /-- The character loop never fails, `len(s) + 1 - i` iterations suffice from position `i`, it ends at
     `i = len(s)`, and the invariant holds at the end. -/
 theorem coreLoop_inv : ∀ (fuel i : Nat) (st : FState),
-    FInv s I i st → s.length + 1 ≤ fuel + i →
-    ∃ st', coreLoop s fn fuel i st = .ok (s.length, st') ∧ FInv s I s.length st'
+    FInv s I R J E i st → s.length + 1 ≤ fuel + i →
+    ∃ st', coreLoop s fn fuel i st = .ok (s.length, st') ∧ FInv s I R J E s.length st'
   | 0, i, st, h, hf => by have := h.ile; omega
   | fuel + 1, i, st, h, hf => by
     rw [coreLoop_succ]
@@ -1364,8 +1437,9 @@ theorem coreLoop_inv : ∀ (fuel i : Nat) (st : FState),
       exact ⟨st, rfl, h⟩
     | some c =>
       have hi : i < s.length := (List.getElem?_eq_some_iff.1 hc).1
-      have hrest : ∃ st', restExpr (coreLoop s fn fuel) s fn i c st = .ok (s.length, st') ∧ FInv s I s.length st' := by
-        obtain ⟨i', st3, he, hle, hlt, hinv⟩ := rest_spec L (coreLoop s fn fuel) i c st h hi
+      have hrest : ∃ st', restExpr (coreLoop s fn fuel) s fn i c st = .ok (s.length, st') ∧
+          FInv s I R J E s.length st' := by
+        obtain ⟨i', st3, he, hle, hlt, hinv⟩ := rest_spec L (coreLoop s fn fuel) i c st h hc
         rw [he]
         exact coreLoop_inv fuel (i' + 1) st3 hinv (by omega)
       simp only
@@ -1387,8 +1461,10 @@ theorem findCoreTokens_loop (h0 : I 0 [] []) :
     ∃ st ds, coreLoop s fn (s.length + 2) 0 { code := codeSearch s 0 } = .ok (s.length, st) ∧
       ds = (if st.inRun.isSome then pushDelim st (mkDelim st.start s.length s) else st).ds ∧
       I s.length ds st.ms := by
-  have hinit : FInv s I 0 { code := codeSearch s 0 } :=
-    finv_norun 0 _ (Nat.zero_le _) rfl h0 (fun cm h => codeSearch_spec s 0 cm h)
+  have hinit : FInv s I R J E 0 { code := codeSearch s 0 } :=
+    finv_norun 0 _ (Nat.zero_le _) rfl h0
+      (fun cm h => ⟨(codeSearch_spec s 0 cm h).1, (codeSearch_spec s 0 cm h).2, L.J_code 0 cm h⟩)
+      (fun h => by cases h) (fun h => by cases h)
   obtain ⟨st, h1, h2⟩ := coreLoop_inv L (s.length + 2) 0 _ hinit (by omega)
   refine ⟨st, _, h1, rfl, ?_⟩
   cases hr : st.inRun with
@@ -1396,9 +1472,15 @@ theorem findCoreTokens_loop (h0 : I 0 [] []) :
     simp only [Option.isSome_none, Bool.false_eq_true, if_false]
     exact L.mono (by split <;> omega) (h2.norun hr)
   | some ch =>
-    obtain ⟨_, hlt, hC, _⟩ := h2.run ch hr
+    obtain ⟨_, hlt, hC, _, hR⟩ := h2.run ch hr
     simp only [Option.isSome_some, if_true, pushDelim]
-    exact L.push _ _ hC (Nat.le_refl _) (by omega) (Nat.le_refl _) (Nat.le_refl _)
+    cases he : st.escaped with
+    | false =>
+      rw [he] at hR
+      simp only [Bool.false_eq_true, if_false, Nat.sub_zero] at hR
+      exact L.push_run _ _ ch hC hR (Nat.le_refl _) (by omega) (Nat.le_refl _) (Nat.le_refl _)
+    | true =>
+      exact L.push_esc _ _ hC (h2.esc he) (Nat.le_refl _) (by omega) (Nat.le_refl _) (Nat.le_refl _)
 
 end loop2
 
@@ -1443,5 +1525,170 @@ theorem emphasis_nested (s : Str) (fn : Footnotes.Table) (ms : List CoreM) (code
   rw [h] at h'
   cases h'
   exact List.pairwise_reverse.2 hD.nest
+
+/-! ### delimiter characters, for texts without a backslash
+
+  The clause "the delimiter characters of an emphasis match are all `*` or all `_`" is false in
+  general (see Props/C06.lean).  Both counterexamples need a backslash; without one it holds. -/
+
+theorem countLeading_get (ch : Char) : ∀ (l : Str) (k : Nat), k < countLeading ch l → l[k]? = some ch
+  | [], k, h => by simp [countLeading] at h
+  | c :: rest, k, h => by
+    simp only [countLeading] at h
+    split at h
+    · rename_i hc
+      cases k with
+      | zero => simp [hc]
+      | succ k => simp only [List.getElem?_cons_succ]; exact countLeading_get ch rest k (by omega)
+    · omega
+
+theorem closeRun_last (n : Nat) (hn : 1 ≤ n) : ∀ (fuel j : Nat) (pt : Bool) (l : Str) (j' : Nat),
+    closeRun n fuel j pt l = some j' → j ≤ j' ∧ l[j' - j + n - 1]? = some '`'
+  | 0, _, _, _, _, h => by simp [closeRun] at h
+  | fuel + 1, _, _, [], _, h => by simp [closeRun] at h
+  | fuel + 1, j, pt, c :: rest, j', h => by
+    simp only [closeRun] at h
+    split at h
+    · split at h
+      · rename_i hr
+        cases h
+        refine ⟨Nat.le_refl _, ?_⟩
+        have : j - j + n - 1 = n - 1 := by omega
+        rw [this]
+        exact countLeading_get '`' (c :: rest) (n - 1) (by omega)
+      · obtain ⟨h1, h2⟩ := closeRun_last n hn fuel _ _ _ _ h
+        refine ⟨by omega, ?_⟩
+        rw [List.getElem?_drop] at h2
+        rw [← h2]; congr 1; omega
+    · obtain ⟨h1, h2⟩ := closeRun_last n hn fuel _ _ _ _ h
+      refine ⟨by omega, ?_⟩
+      have : j' - j + n - 1 = (j' - (j + 1) + n - 1) + 1 := by omega
+      rw [this, List.getElem?_cons_succ]
+      exact h2
+
+theorem codeAt_last (prev : Option Char) (r : Str) (len n gs ge : Nat) (h : codeAt prev r = some (len, n, gs, ge)) :
+    r[len - 1]? = some '`' := by
+  unfold codeAt at h
+  split at h
+  · cases h
+  · simp only at h
+    split at h
+    · cases h
+    · split at h
+      · cases h
+      · rename_i hn
+        split at h
+        · rename_i j hj
+          cases h
+          obtain ⟨_, h2⟩ := closeRun_last _ (by omega) _ _ _ _ _ hj
+          rw [List.getElem?_drop, List.getElem?_drop] at h2
+          rw [← h2]; congr 1; omega
+        · cases h
+
+theorem codeSearchAux_last : ∀ (fuel pos : Nat) (prev : Option Char) (l : Str) (cm : CodeM),
+    codeSearchAux fuel pos prev l = some cm → pos < cm.stop ∧ l[cm.stop - 1 - pos]? = some '`'
+  | 0, _, _, _, _, h => by simp [codeSearchAux] at h
+  | fuel + 1, _, _, [], _, h => by simp [codeSearchAux] at h
+  | fuel + 1, pos, prev, c :: rest, cm, h => by
+    simp only [codeSearchAux] at h
+    split at h
+    · rename_i len n gs ge hc
+      cases h
+      have h1 := codeAt_len _ _ _ _ _ _ hc
+      have h2 := codeAt_last _ _ _ _ _ _ hc
+      refine ⟨by simp only; omega, ?_⟩
+      simp only
+      rw [← h2]; congr 1; omega
+    · obtain ⟨h1, h2⟩ := codeSearchAux_last fuel _ _ _ _ h
+      refine ⟨by omega, ?_⟩
+      have : cm.stop - 1 - pos = (cm.stop - 1 - (pos + 1)) + 1 := by omega
+      rw [this, List.getElem?_cons_succ]
+      exact h2
+
+theorem codeSearch_last (s : Str) (pos : Nat) (cm : CodeM) (h : codeSearch s pos = some cm) :
+    1 ≤ cm.stop ∧ s[cm.stop - 1]? = some '`' := by
+  unfold codeSearch at h
+  obtain ⟨h1, h2⟩ := codeSearchAux_last _ _ _ _ _ h
+  refine ⟨by omega, ?_⟩
+  rw [List.getElem?_drop] at h2
+  rw [← h2]; congr 1; omega
+
+theorem labelGo_last (s : Str) (fn : Footnotes.Table) : ∀ (l : Str) (i : Nat) (st : Option Nat) (esc : Bool)
+    (r : (Nat × Str) × (Str × Str)), labelGo s fn l i st esc = some r → l[r.1.1 - 1 - i]? = some ']'
+  | [], _, _, _, _, h => by simp [labelGo] at h
+  | c :: rest, i, st, esc, r, h => by
+    have hs := labelGo_spec s fn (c :: rest) i st esc r h
+    simp only [labelGo] at h
+    have step : ∀ st' esc', labelGo s fn rest (i + 1) st' esc' = some r → (c :: rest)[r.1.1 - 1 - i]? = some ']' := by
+      intro st' esc' h'
+      have h1 := labelGo_spec s fn rest (i + 1) st' esc' r h'
+      have h2 := labelGo_last s fn rest (i + 1) st' esc' r h'
+      have : r.1.1 - 1 - i = (r.1.1 - 1 - (i + 1)) + 1 := by omega
+      rw [this, List.getElem?_cons_succ]
+      exact h2
+    split at h
+    · exact step _ _ h
+    · split at h
+      · split at h
+        · exact step _ _ h
+        · cases h
+      · split at h
+        · rename_i hc
+          simp only [Bool.and_eq_true, decide_eq_true_eq] at hc
+          cases st <;> simp only at h <;>
+          · split at h
+            · split at h
+              · cases h; simp [hc.1]
+              · cases h
+            · cases h
+        · exact step _ _ h
+
+theorem matchLinkImage_last (s : Str) (offset : Nat) (d : Delim) (fn : Footnotes.Table) (m : CoreM)
+    (ho : s[offset]? = some ']') (h : matchLinkImage s offset d fn = some m) :
+    1 ≤ m.stop ∧ (s[m.stop - 1]? = some ')' ∨ s[m.stop - 1]? = some ']') := by
+  unfold matchLinkImage at h
+  simp only at h
+  split at h
+  · rename_i m' hin
+    cases h
+    split at hin
+    · split at hin
+      · cases hin
+      · split at hin
+        · cases hin
+        · split at hin
+          · rename_i hp
+            cases hin
+            simp only [beq_iff_eq] at hp
+            exact ⟨by simp only; omega, Or.inl (by simpa using hp)⟩
+          · cases hin
+    · cases hin
+  · split at h
+    · rename_i hf
+      have hf' := follows_lt _ _ _ hf
+      split at h
+      · rename_i stop label dest title hl
+        cases h
+        unfold matchLinkLabel at hl
+        have h1 := labelGo_spec _ _ _ _ _ _ _ hl
+        have h2 := labelGo_last _ _ _ _ _ _ _ hl
+        simp only at h1 h2
+        rw [List.getElem?_drop] at h2
+        refine ⟨by simp only; omega, Or.inr ?_⟩
+        simp only
+        rw [← h2]; congr 1; omega
+      · split at h
+        · split at h
+          · rename_i hf2
+            cases h
+            unfold follows at hf2
+            simp only [beq_iff_eq] at hf2
+            exact ⟨by simp only; omega, Or.inr (by simpa using hf2)⟩
+          · cases h
+        · cases h
+    · split at h
+      · cases h
+        exact ⟨by simp only; omega, Or.inr (by simpa using ho)⟩
+      · cases h
 
 end Mistletoe.Core
